@@ -80,9 +80,9 @@ func Install(n *Net) {
 		panic("simnet: a network is already installed")
 	}
 }
-func Uninstall(n *Net)  { cur.CompareAndSwap(n, nil) }
-func Current() *Net     { return cur.Load() }
-func New() *Net         { return &Net{nextPort: 40000} }
+func Uninstall(n *Net)        { cur.CompareAndSwap(n, nil) }
+func Current() *Net           { return cur.Load() }
+func New() *Net               { return &Net{nextPort: 40000} }
 func (n *Net) Links() []*Link { return n.links }
 
 // Link is one simulated TCP connection between the SUT and a harness peer.
@@ -104,7 +104,7 @@ type Link struct {
 	reset     bool   // RST: both directions dead
 	Stalled   bool   // no delivery while set (fault)
 	User      interface{}
-	ioSync    int // address used for race-detector release/acquire
+	ioSync    int   // address used for race-detector release/acquire
 	written   int64 // bytes the peer wrote towards the SUT
 	consumed  int64 // bytes the SUT actually read
 }
@@ -369,9 +369,9 @@ func (c *Conn) RemoteAddr() net.Addr { return c.l.Remote }
 func (c *Conn) SetDeadline(t time.Time) error { c.rdl = t; return nil }
 
 //go:norace
-func (c *Conn) SetReadDeadline(t time.Time) error { c.rdl = t; return nil }
+func (c *Conn) SetReadDeadline(t time.Time) error  { c.rdl = t; return nil }
 func (c *Conn) SetWriteDeadline(t time.Time) error { return nil }
-func (c *Conn) Link() *Link                         { return c.l }
+func (c *Conn) Link() *Link                        { return c.l }
 
 // ---------------------------------------------------------------- Listener (SUT side)
 
